@@ -1,0 +1,6 @@
+//go:build !verif
+
+package app
+
+// simYield marks a scheduling point for the simulation harness (build tag "verif"); a no-op otherwise.
+func simYield(string) {}
